@@ -235,4 +235,40 @@ func TestVerif_C19_TbtcHostile(t *testing.T) {
 	c19wire.RunHostile(t, "TestVerif_C19_TbtcHostile", c19Codecs())
 }
 
+// c19Loaders: the wallet registry constructor (start-up) which loads every
+// stored signer through walletStorage.loadSigners, the production caller of
+// signer.Unmarshal.
+func c19Loaders() []c19wire.Loader {
+	codecs := c19Codecs()
+	return []c19wire.Loader{{
+		Name:   "tbtc.newWalletRegistry",
+		Codecs: codecs, Record: 0, // tbtc.signer
+		Load: func(h *c19wire.MemHandle) ([]string, error) {
+			wr, err := newWalletRegistry(h, func(*ecdsa.PublicKey) ([32]byte, error) { return [32]byte{}, nil })
+			if err != nil {
+				return nil, err
+			}
+			var out []string
+			for _, v := range wr.walletCache {
+				for _, s := range v.signers {
+					out = append(out, c19wire.Render(s))
+				}
+			}
+			_ = wr.getWalletsPublicKeys()
+			return out, nil
+		},
+		Expect: func(f c19wire.File) (string, bool) {
+			v, ok := c19wire.Decode(&codecs[0], f.Content)
+			if !ok {
+				return "", false
+			}
+			return c19wire.Render(v), true
+		},
+	}}
+}
+
+func TestVerif_C19_TbtcLoaders(t *testing.T) {
+	c19wire.RunLoaders(t, "TestVerif_C19_TbtcLoaders", c19Loaders())
+}
+
 func FuzzVerif_C19_Tbtc(f *testing.F) { c19wire.RunFuzz(f, c19Codecs()) }
